@@ -86,6 +86,9 @@ def safe_execute(mod, scn, keep_log=False):
         else:
             res = {'violations': [], 'harness': 'run exceeded wall limit outside library code:\n' + traceback.format_exc(),
                    'stats': {}, 'nontrivial': False, 'digest': 'timeout'}
+    except kernel.LibraryHang as e:
+        res = {'violations': [{'clause': 'hang', 'msg': 'thread %s made no progress for %.0f s of wall time inside %s (endless or super-linear loop)' % (
+            e.thread, 20.0, e.site), 'feat': {'site': e.site}}], 'stats': {}, 'nontrivial': True, 'digest': 'hang'}
     except kernel.HarnessError as e:
         res = {'violations': [], 'harness': 'HarnessError: %s\n%s' % (e, traceback.format_exc()), 'stats': {},
                'nontrivial': False, 'digest': 'harness'}
